@@ -3,5 +3,6 @@ CONSTANTS
   MaxTxs = 3
   OutShapes <- OutsMid
   InShapes <- InsMid
+  SampleSize = 6000
   Faults = {"none"}
 INVARIANTS EmitAll
